@@ -14,6 +14,18 @@ Theorem C19_product_lengths : forall (A : Type) (ss : list (list A)) (j : nat), 
   length (nth j (comb A ss) []) = length (prod A ss).
 Proof. exact Comb.comb_lengths. Qed.
 
+(* ... where the product is what it should be: a tuple occurs in it iff its j-th member occurs in the j-th stream, there
+   are (product of the lengths) tuples, and with duplicate-free streams every combination occurs exactly once *)
+Theorem C19_product_is_cartesian : forall (A : Type) (ss : list (list A)) (tup : list A),
+  In tup (prod A ss) <-> Forall2 (fun a s => In a s) tup ss.
+Proof. exact Comb.prod_spec. Qed.
+
+Theorem C19_product_size : forall (A : Type) (ss : list (list A)), length (prod A ss) = lprod A ss.
+Proof. exact Comb.prod_length. Qed.
+
+Theorem C19_product_exactly_once : forall (A : Type) (ss : list (list A)), Forall (@NoDup A) ss -> NoDup (prod A ss).
+Proof. exact Comb.prod_nodup. Qed.
+
 (* selector: exactly the aligned tuples all of whose members satisfy the predicate, in order *)
 Theorem C19_selector : forall (A : Type) (pred : A -> bool) (rows : list (list A)) (r : list A),
   In r (selector pred rows) <-> In r rows /\ forall x, In x r -> pred x = true.
@@ -40,11 +52,19 @@ Theorem C19_split_example :
 Proof. vm_compute. repeat split; reflexivity. Qed.
 
 (* concatenator: the output is every input's content followed by a newline, in arrival order *)
+Theorem C19_concat_unfold : forall (c : list nat) (r : list (list nat)),
+  concat_out [] = [] /\ concat_out (c :: r) = c ++ [LF] ++ concat_out r.
+Proof. intros c r. split; [reflexivity|]. unfold concat_out. simpl. now rewrite <- app_assoc. Qed.
+
 Theorem C19_concat : forall a b : list (list nat), concat_out (a ++ b) = concat_out a ++ concat_out b.
 Proof. exact Components.concat_out_app. Qed.
 
 Print Assumptions C19_product.
 Print Assumptions C19_product_lengths.
+Print Assumptions C19_product_is_cartesian.
+Print Assumptions C19_product_size.
+Print Assumptions C19_product_exactly_once.
+Print Assumptions C19_concat_unfold.
 Print Assumptions C19_selector.
 Print Assumptions C19_selector_order.
 Print Assumptions C19_split_bytes.
